@@ -100,6 +100,11 @@ def compare_world(facts, rep, w, tag, floor):
                        "the OS refuses %s when '%s' fails (%s), MemoryFS does not check it: code validated on MemoryFS "
                        "behaves differently on PhysicalFS" % (op, NAMES[g], eff), mb.span)
     rep.floor("guards compared between the in-memory backend and the OS (%s)" % w.tag, ncmp, floor)
+    # the comparison above asks whether the guard is there; Table M's rows ask that it holds on *every* path to the hand-out /
+    # mutation (a fast path that returns the writer in front of the type check keeps the check in the code and skips it)
+    for o in scratch.obligations:
+        if o["rule"] == "M" and " guarded by '" in o["key"]:
+            rep.ob(tag + "R02.1m/R01.2", o["fn"], o["key"].split("|")[2], o["ok"], o["detail"], o["loc"])
     # R02.2 error classes
     for o in scratch.obligations:
         if o["rule"] == "Mk":
@@ -239,6 +244,11 @@ def run(facts, rep, tier, ctx):
         pra = PathRules(facts, wa, D)
         pra.table_p(A, "R02.3")
         pra.generic_routes(A, "R02.3g")
+        # R02.8 the async walk keeps per-entry state across Pending — a path only the physical backend takes (its metadata future is
+        # Pending on the first poll, the in-memory one is always ready): the stash/slot typestate of poll_next decides that both
+        # backends see the same stream (shared with C15 R15.4)
+        from . import c15 as _c15w
+        _c15w.poll_next_rules(facts, _Prefixed(rep, "R02.8"), D)
     PathRules(facts, ws, D).generic_routes(rep, "R02.3g")
     # R02.7 is_file / is_dir answer through exists() first: exists() is total on both backends, metadata() of a path below a
     # file is not (ENOTDIR on disk, "not found" in memory) — a single metadata() lookup makes the two backends disagree there
